@@ -345,6 +345,7 @@ def main():
         '[' + ', '.join(L(x) for x in lst) + ']' for _, _, lst in arglists) + ']')
     D.append('def cliResourceNames : List Str := [' + ', '.join(L(k) for k in sorted(mods['rimuc'].resources)) + ']')
     D.append('def maxExpansionDepth : Nat := %d' % int(lb.MAX_EXPANSION_DEPTH))
+    D.append('def maxContainerDepth : Nat := %d' % int(db.MAX_CONTAINER_DEPTH))
 
     # quote regex template: run the real synthesis with a sentinel quote
     saved = list(quotes.defs)
